@@ -270,6 +270,14 @@ static MV raw_shape(const HOp& op) {
     if (depth > lim) depth = lim;
     return deep_mv(r, depth);
   }
+  if (op.d & 4) {
+    // strings whose length needs the 4-byte head and crosses 64 KiB (size-dependent paths in the decoder's string handling)
+    MV a; a.kind = MK_ARRAY; a.definite = true;
+    MV t; t.kind = MK_TSTR; t.definite = true; gen_payload(op.c, (size_t)(65530 + op.c % 5000), 2, t.bytes); a.kids.push_back(t);
+    MV it; it.kind = MK_TSTR; it.definite = false; MV ch; ch.kind = MK_TSTR; ch.definite = true; gen_payload(op.c + 1, (size_t)(65537 + (op.c >> 16) % 3000), (op.c & 1) ? 2 : 3, ch.bytes); it.kids.push_back(ch); a.kids.push_back(it);
+    MV b; b.kind = MK_BSTR; b.definite = true; gen_payload(op.c + 2, (size_t)(65536 + (op.c >> 8) % 9), 0, b.bytes); a.kids.push_back(b);
+    return a;
+  }
   GenProfile gp; gp.max_depth = 3; gp.max_kids = 4; return gen_mv(r, gp);
 }
 
